@@ -1,6 +1,6 @@
 SPECIFICATION Spec
 CONSTANTS
-  Tracers = {"specialized-antarctic", "uniform", "layered", "basic-antarctic"}
+  Tracers = {"specialized-antarctic", "uniform", "layered", "basic-antarctic", "specialized-above"}
   Geos = {1, 2, 3, 4, 5, 6}
   Interps = {0, 1}
   Factors <- FactorsMC
